@@ -177,5 +177,19 @@ PROPS["C01"] = {
     "technique": "runtime monitoring: client-side wire monitor + handler-side event log vs reference model, under segmentation/pipelining workloads",
 }
 
+PROPS["C20"] = {
+    "level": "exploration",
+    "engines": [
+        {"bin": "hv", "args": ["c20"]},
+        {"bin": "hvt", "args": ["c20"]},
+    ],
+    "min": {"quick": {"scenarios": 180, "returns_observed": 180, "rebinds_ok": 180, "in_flight_responses_complete": 150},
+            "thorough": {"scenarios": 1400}},
+    "assumptions": [],
+    "level_text": "Real Apps are started on loopback, put into generated traffic states (idle, half-sent, running handlers, large responses, WebSockets, occupied pools), signalled at varied instants with delays injected at the accept-loop failpoints, and observed: time until run returns, re-bind of the port, completeness of every in-flight response whose handler had started before the signal.",
+    "level_note": "Trusted: hvcommon::shutlab; the 10 s progress bound; loopback TCP.",
+    "technique": "runtime monitoring: bounded-progress monitor + wire monitor of in-flight responses under generated traffic states and failpoint delays",
+}
+
 # properties without a check, with the reason (kept current)
 NOT_CLAIMED = {}
